@@ -5,6 +5,6 @@ cd "$(dirname "$0")"
 export CARGO_NET_OFFLINE=true
 python3 tools/extract.py
 (cd lean && lake build)
-cp /repo/Cargo.lock harness/Cargo.lock
+cp repo_link/Cargo.lock harness/Cargo.lock
 (cd harness && cargo build --release --offline)
 echo setup-ok
